@@ -54,6 +54,7 @@ def pairs_table(ix):
 def writer_layout(run, f):
     """Order of header parts concatenated by rend(), per branch (zeroth / other):
     [(field, guard)] with field in bz nz mz vz body az, classified through def-use of the operands."""
+    bufname = [None]
     defs = {}
     vidparam = f.params()[0][2] if len(f.params()[0]) > 2 else None
     for n in walk_local(f.node):
@@ -74,7 +75,7 @@ def writer_layout(run, f):
         return " ".join(out)
 
     def classify(e, depth=0):
-        if isinstance(e, ast.Subscript) and dotted(e.value) == f.params()[0][1]:
+        if isinstance(e, ast.Subscript) and dotted(e.value) == bufname[0]:
             return "body"
         if isinstance(e, ast.Name):
             t = origin_text(e.id)
@@ -92,10 +93,13 @@ def writer_layout(run, f):
         return [e]
 
     layouts = []
-    memoparam = f.params()[0][1]
-    loops = [n for n in walk_local(f.node) if isinstance(n, ast.While) and dotted(n.test) == memoparam]
+    # the body buffer is whatever name the segmentation loop tests and consumes (`while B: ... del B[:n]`)
+    loops = [n for n in walk_local(f.node) if isinstance(n, ast.While) and isinstance(n.test, ast.Name)
+             and any(isinstance(d, ast.Delete) and isinstance(d.targets[0], ast.Subscript) and dotted(d.targets[0].value) == n.test.id for d in ast.walk(n))]
     if not loops:
-        raise AnalysisError("rend(): `while memo` loop not found")
+        raise AnalysisError("rend(): segmentation loop `while <buffer>: ... del <buffer>[:n]` not found")
+    memoparam = loops[0].test.id
+    bufname[0] = memoparam
     top = [s for s in loops[0].body if isinstance(s, ast.If)]
     if not top:
         raise AnalysisError("rend(): zeroth / non-zeroth branch not found")
